@@ -4,7 +4,10 @@ sys.path.insert(0, os.path.dirname(os.path.abspath(__file__)))
 VERIF = os.path.dirname(os.path.dirname(os.path.abspath(__file__)))
 ids = [json.loads(l)['id'] for l in open(os.path.join(VERIF, 'properties.jsonl'))]
 checks = []; na = []
+ready = set(open(os.path.join(VERIF, 'tools', 'ready.txt')).read().split())
 for i in ids:
+    if i not in ready:
+        na.append({'property_id': i, 'reason': 'check under construction (see DESIGN.md section 5); not claimed until it passes on the unchanged tree'}); continue
     if not os.path.exists(os.path.join(VERIF, 'tools', 'props', i + '.py')):
         na.append({'property_id': i, 'reason': 'check not built yet (planned, see DESIGN.md section 5)'}); continue
     src = open(os.path.join(VERIF, 'tools', 'props', i + '.py')).read()
